@@ -25,7 +25,7 @@ def args_for(unit, failure, tier='quick'):
         return ['c13-primnames']
     m = re.match(r'kani:primex_([a-z0-9]+)', unit)
     if m:
-        return ['c12-primex', '20000' if tier == 'thorough' else '3000', str(PRIM_INDEX[m.group(1)])]
+        return ['c12-primex', '4000000' if tier == 'thorough' else '400000', str(PRIM_INDEX[m.group(1)])]
     return None
 
 
